@@ -56,7 +56,9 @@ type Enc struct {
 	quantN   int
 	specDepth int
 	unsupported []string
+	readonlyHeaps map[string]bool
 	siteHits      map[int]int
+	returnHits    map[int]int
 	ghostSorts    map[string]Sort
 	ghostTypes    map[string]types.Type
 	inlined       map[string]bool
@@ -434,7 +436,17 @@ func (e *Enc) cellHeapName(el Sort) (string, Sort) {
 func (e *Enc) fieldHeapName(t types.Type, i int) (string, Sort) {
 	st := t.Underlying().(*types.Struct)
 	s := e.structSort(t, st)
-	return fmt.Sprintf("HF_%s_%d_%s", s, i, sanitize(st.Field(i).Name())), arraySort(SRef, e.sortOf(st.Field(i).Type()))
+	name := fmt.Sprintf("HF_%s_%d_%s", s, i, sanitize(st.Field(i).Name()))
+	if e.p != nil && e.p.isReadonlyField(t, i) {
+		if e.readonlyHeaps == nil {
+			e.readonlyHeaps = map[string]bool{}
+		}
+		if !e.readonlyHeaps[name] {
+			e.readonlyHeaps[name] = true
+			e.trust("field declared read-only after construction (checked by a field-readonly structural obligation in the same run): " + readonlyFieldKey(t, st.Field(i).Name()))
+		}
+	}
+	return name, arraySort(SRef, e.sortOf(st.Field(i).Type()))
 }
 
 // fieldLoc returns the address of field i of the struct object obj. Array-typed fields live in the element
